@@ -246,7 +246,7 @@ func progressPremises(c *an.Ctx, s *sched, rule string) {
 		okRet := false
 		for _, r := range an.Returns(g) {
 			if x := l.NormalExit(); x != nil && x.Dominates(r.Block()) {
-				if k, isConst := r.Results[0].(*ssa.Const); isConst && k.Value != nil && k.Value.ExactString() == "true" {
+				if k, isConst := an.RetVal(r, 0).(*ssa.Const); isConst && k.Value != nil && k.Value.ExactString() == "true" {
 					okRet = true
 				}
 			}
